@@ -226,7 +226,7 @@ def replay(case):
 def run(tier='quick', seed=0, nproc=16):
   jobs = [(n, t) for n in extra_pool() for t in TRANSFORMS]
   res = common.pmap(check_case, gen.shuffled(jobs), nproc)
-  res.append(dataclass_case())
+  res.append(common.guard(dataclass_case))
   return common.merge(
       res, 'layerb.prop_C20',
       rule='every transformation (materialize_defaults, with_defaults_trimmed, '
